@@ -7,7 +7,7 @@ CLAIMED = {
     "C01": dict(
         text="Bounded symbolic execution of LangServer.handle/run and the real sync handlers: every dispatch-table method "
              "(read from the source each run) x id presence/kind/value x handler outcome; sequences of <=3 messages; "
-             "z3 decides every branch, 'Confirmed over all paths' per condition. One-step induction covers longer histories.",
+             "z3 decides every branch, 'Confirmed over all paths' per condition. One-step induction covers longer histories. (B) a real session at the byte level: real run(), real handlers incl. initialize, real connection over byte buffers, a second initialize at any position, non-ASCII method names; an independent byte-level frame reader finds exactly one decodable response per request id, in order.",
         note="handlers stubbed by contract (return JSON or raise Exception); connection is a recording stub; "
              "logging/traceback stubbed; CrossHair+z3 trusted",
         ref="DESIGN.md section 5 C01",
@@ -17,7 +17,7 @@ CLAIMED = {
              "reference model: every range inside 3 (quick) / 6 (thorough) document shapes x inserted texts of <=3 segments "
              "joined by LF|CR|CRLF, whole-document sync, a preprocessed file whose expanded copy differs, and splitlines on a "
              "free symbolic string (any characters, len<=4). One edit from an arbitrary valid buffer + buffer invariant gives "
-             "sequences by induction; 2-edit chains explicitly in thorough.",
+             "sequences by induction; 2-edit chains explicitly in thorough. (R) didOpen, unsaved single-line edits, [didClose,] didOpen with the disk unchanged: text and outline are the disk's again.",
         note="documents <=3 lines x <=2 chars; one representative non-break character except in the free-string obligation; "
              "update_workspace_file stubbed; BMP characters (UTF-16 offsets == str indices); CrossHair+z3 trusted",
         ref="DESIGN.md section 5 C02",
@@ -36,7 +36,7 @@ CLAIMED = {
              "the parser (inventory regenerated from the parser object each run): symbolic presence in the file, CLI value and "
              "file value (free bool/int; 3-value tables for str/list/dict), pairs of options, and faulty files (parser error, "
              "7 non-object top levels, wrongly typed values alone or between valid ones). Oracle: file wins, absent keeps CLI, "
-             "faults => message + untouched options.",
+             "faults => message + untouched options. (E) the observable effect of an option (hover text, indexed declarations, diagnostics; after a re-parse too) is the same through both channels and differs from the default.",
         note="json5.load, os.path.isfile and open stubbed; load_intrinsics cached; CLI side modelled as the parser's default "
              "settings dict with the option overridden, passed through the real __init__; CrossHair+z3 trusted",
         ref="DESIGN.md section 5 C19",
@@ -59,7 +59,7 @@ CLAIMED = {
              "methods go through the real server over an in-memory workspace (construct-rich, broken, preprocessed, top-level, "
              "fixed-form, tiny documents; one line per bundled intrinsic/keyword; test/test_source in thorough): protocol-shaped "
              "result or null, never an error, every location/edit/diagnostic range inside its document. (P2) genuinely symbolic: "
-             "get_line_prefix / get_paren_level / find_paren_match on free short strings, the range templates for all non-negative ints.",
+             "get_line_prefix / get_paren_level / find_paren_match on free short strings, the range templates for all non-negative ints. Sample documents extended by 13 shapes on which the pinned tree had internal errors.",
         note="sweep paths run concretely (NoTracing): enumeration of a bounded (document,line) space by solver forking, not reasoning "
              "about the handlers; sample documents only; in-memory disk; CrossHair+z3 trusted",
         ref="DESIGN.md section 5 C09",
@@ -101,7 +101,7 @@ CLAIMED = {
         text="(RX, unbounded) the suffix regex built by create_src_file_exts_str(S) as a z3 regular language equals, over ALL printable "
              "ASCII file names, the set of names ending in a documented default suffix (any case) or a configured suffix, for 6 "
              "configurations incl. regex metacharacters and look-alikes. (Tree) _get_source_files/_add_source_dirs over a symbolic "
-             "in-memory tree x source_dirs x exclusion-path x suffix configurations: indexed set == prescribed set.",
+             "in-memory tree x source_dirs x exclusion-path x suffix configurations: indexed set == prescribed set. (PATHS, script on a real temporary tree) resolve_globs == an independent expansion on 25 patterns incl. hidden names; start-up file list for 10 settings through both channels. RX also on the pattern the server builds.",
         note="listdir/walk/isfile replaced by an in-memory tree; exclusion is exact path match after glob resolution; glob expansion "
              "(pathlib on the real FS) not covered; tree contents are solver-forked masks, configurations below them enumerated concretely",
         ref="DESIGN.md section 5 C18", rx=True,
@@ -125,7 +125,7 @@ CLAIMED = {
              "every statement x 4 case modes x LF|CRLF|CR x trailing blanks, and every statement split at every token boundary (with/without "
              "leading '&', with blank / whitespace-only / comment lines between the parts): scopes (kind, name, parent, start and END line "
              "under that layout), declarations, resolved bindings (type-bound links, EXTENDS, generic members, submodule ancestor) and error "
-             "diagnostics equal the generator's model.",
+             "diagnostics equal the generator's model. Name positions through continuation lines (find_word_in_code_line), three-piece continuations, six-blank indentation.",
         note="layouts are enumerated concretely below solver-chosen indices; programs come from one structural generator; ASCII only",
         ref="DESIGN.md section 5 C13", rx=True,
     ),
@@ -135,7 +135,7 @@ CLAIMED = {
              "fixed form - 6 comment characters before every statement, blank lines, column-6 continuation (5 markers) at every token "
              "boundary with comment/blank lines in between, labelled and shared-label DO termination - are classified fixed and indexed "
              "like the model; free-form renderings (indent 0..4, 4 case modes) and 8 declaration-free programs from column 1 are never "
-             "classified fixed.",
+             "classified fixed. Three-piece fixed-form continuations with comment / blank lines in either gap; free-form evidence reduced to a single '&' in four spellings.",
         note="texts valid in both source forms are outside (every column-1 line starts with c/d/!/*); a fixed-form comment line that "
              "begins with a declaration keyword (CHARACTER/COMPLEX/CLASS/DOUBLE...) is a recorded known finding; enumeration below solver-chosen indices",
         ref="DESIGN.md section 5 C14", rx=True,
@@ -146,7 +146,7 @@ CLAIMED = {
              "Fortran rule on every path. (W) three-file worlds over all combinations of accessibility forms, default PRIVATE, USE with "
              "ONLY/rename, re-export, local and host declarations: every use site of every standard-conforming world lands exactly on the "
              "declaration (file, line, column) a reference resolver written from the Fortran rules binds it to, or on nothing. (T) 45 '%' "
-             "chain sites incl. two-level EXTENDS inheritance, nested types, pointer components, array elements.",
+             "chain sites incl. two-level EXTENDS inheritance, nested types, pointer components, array elements. Plus a 3-level EXTENDS chain over three files in all 24 index orders (real workspace_init and didOpen) and further USE forms (two renaming USE statements, accessibility statements in another letter case).",
         note="known finding C05-reexport-private-default is excluded by its exact predicate; W/T run concretely below solver-chosen parameters; "
              "INCLUDE/IMPORT/submodule association outside",
         ref="DESIGN.md section 5 C05",
@@ -179,7 +179,7 @@ CLAIMED = {
              "CONTAINS' and 'USE after IMPLICIT' are reported exactly when the line order says so, with severity and 0-based line. (D) a valid "
              "two-module base program (incl. the constructor-overload idiom, deferred bindings, intrinsic modules) publishes no error; 34 seeded "
              "variants covering the 15 documented defect classes at several positions x 0..3 blank lines above: the real server publishes the "
-             "class's message with its severity on the offending line and no error of another class.",
+             "class's message with its severity on the offending line and no error of another class. Plus the variants under re-layout, repeated saves (same list every time) and a 3-level EXTENDS chain in all index orders (deferred binding reported).",
         note="one defect at a time in one base program; variant / offset indices are solver-forked, each run concrete; C04/C13 assert "
              "'no error diagnostic' on all their generated valid programs",
         ref="DESIGN.md section 5 C07",
@@ -189,7 +189,7 @@ CLAIMED = {
              "variable / dummy / local x attribute subsets in both orders x entity dimension / character length / PARAMETER value x 6 "
              "documentation placements) are indexed by the real server; hover must restate type+selector, the attribute set with arguments, "
              "name, value and exactly that entity's documentation while the neighbours keep theirs. Signature help at 20 cursor positions "
-             "(positional, keywords in any order, nested parentheses): parameters in declared order with their declarations, right active parameter.",
+             "(positional, keywords in any order, nested parentheses): parameters in declared order with their declarations, right active parameter. Plus multi-entity statements (=> target, bounds and lengths given per entity) and calls holding comparisons, literals with commas, lines starting with 'end'.",
         note="(type, selector, context) / (call, position) indices are symbolic and forked by the solver, the rest enumerated concretely; "
              "comparison is case- and blank-insensitive; attributes outside KEYWORD_LIST and multi-entity declarations outside",
         ref="DESIGN.md section 5 C11",
